@@ -24,11 +24,11 @@ def gen_cases(cfg, out, simulate=None, timeout=3000, name=None):
     return g, n
 
 
-def replay(cases, outprefix, nproc=12, probe=True, timeout=3000, mode=None):
+def replay(cases, outprefix, nproc=12, probe=True, timeout=3000, mode=None, config="nightly"):
     """Splits the case file over nproc harness processes; returns the merged report."""
     require_lockable_memory()
     build_shim()
-    binp = build_harness("nightly")
+    binp = build_harness(config)
     procs = []
     env = dict(os.environ)
     env["LD_PRELOAD"] = SHIM
